@@ -1547,14 +1547,16 @@ class Crystal(object):
         kptfull = np.array([np.dot(self.reciplatt, ktup) for ktup in itertools.product(*kdiv)])
         # run through list to ensure that all k-points are inside the BZ
         Gmin = min(np.dot(G, G) for G in self.BZG)
+        Gtol = 1e-8 * Gmin
         for k in kptfull:
             # repeat until no G moves the point: a single pass can leave points of skewed lattices outside the BZ
-            # (each shift strictly reduces |k|, so this terminates)
+            # (each shift reduces |k|^2 by more than 4*Gtol, so this terminates; a point on a zone face stays where
+            # it is: at roundoff level it would otherwise be sent back and forth between opposite faces)
             moved = np.dot(k, k) >= Gmin
             while moved:
                 moved = False
                 for G in self.BZG:
-                    if np.dot(k, G) > np.dot(G, G):
+                    if np.dot(k, G) > np.dot(G, G) + Gtol:
                         k -= 2. * G
                         moved = True
         return kptfull
